@@ -286,6 +286,13 @@ def make_stream(ctx, k):
                             ids += ([101000 + rng.randint(1, 3), sq] if rng.random() < 0.5 else [101000, 31001, sq])
                     elif rr < 0.8:
                         ids.append(rng.choice(std))
+                    elif rr < 0.84:
+                        # a STANDARD sequence (never mentioned by the definitions) keeps its meaning - among them sequences that
+                        # consist of one replication holding another one
+                        cand = [x for x in (316003, 316007, 312017, 301011, 301021, 302001, 316004) if x in D]
+                        if cand:
+                            ids.append(rng.choice(cand))
+                            stats['standard_sequences_used'] = stats.get('standard_sequences_used', 0) + 1
                     elif rr < 0.9:
                         body = [rng.choice(elems + std) for _ in range(rng.randint(1, 2))]
                         ids += [100000 + len(body) * 1000 + rng.randint(1, 3)] + body
@@ -427,6 +434,7 @@ def run(ctx):
                 out['messages'] = out['messages'][:len(expected)]
             ctx.count('redefinition_only_messages', stats.get('redef_only', 0))
             ctx.count('sequence_redefinitions', stats.get('seq_redefs', 0))
+            ctx.count('standard_sequences_used', stats.get('standard_sequences_used', 0))
             ctx.count('reused_descriptor_lists', stats.get('reused_descriptor_lists', 0))
             multi = 'multi-def' if stats['defs'] > 1 else 'single-def'
             if out.get('error'):
